@@ -108,6 +108,12 @@ func debugRun(dir, pat string, rest []string) int {
 		return 2
 	}
 	for _, r := range roots {
+		if strings.HasPrefix(r, "lemma:") {
+			if err := e.RunLemma(strings.TrimPrefix(r, "lemma:")); err != nil {
+				fmt.Println("ENGINE-ERROR:", err)
+			}
+			continue
+		}
 		f := e.findFunc(r)
 		if f == nil {
 			fmt.Fprintln(os.Stderr, "not found:", r)
